@@ -2,7 +2,7 @@
    every valid configuration.  These lemmas are the proof obligations that tie the theorems of
    Props.v to what the code says now. *)
 From Coq Require Import ZArith List Bool Lia ZifyBool.
-Require Import SkV.Lib.Base SkV.Lib.ZRange SkV.C01.Model SkV.C01.Gen.
+Require Import SkV.Lib.Base SkV.Lib.ZRange SkV.Lib.Slice SkV.C01.Model SkV.C01.Gen.
 Import ListNotations.
 Open Scope Z_scope.
 
@@ -214,3 +214,30 @@ Qed.
 Theorem bridge_cutoff_reports cs :
   gen_cutoff_cutoffs cs = cs /\ gen_cutoff_n_splits cs = Z.of_nat (length cs).
 Proof. split; reflexivity. Qed.
+
+(* temporal_train_test_split(y, fh=...) on a series labelled lo .. lo+n-1 (X = None) *)
+Theorem bridge_tts_fh_relative lo nn f : valid_fh f -> zlast f < nn ->
+  gen_split_by_fh (zrange lo (lo + nn) 1) true nn f tt = tts_fh_relative_at lo nn f.
+Proof.
+  intros Hf Hn. unfold gen_split_by_fh, tts_fh_relative_at.
+  rewrite valid_fh_out_of_sample by exact Hf. cbn [negb].
+  rewrite valid_fh_max by exact Hf.
+  pose proof (valid_fh_last_pos f Hf) as Hl. pose proof Hf as (Hne & Hs & H1).
+  destruct (0 <? zfirst f) eqn:E1; [|lia]. destruct (zlast f <? nn) eqn:E2; [|lia]. cbn [andb].
+  rewrite drop_last_zrange1 by lia. rewrite take_last_zrange1 by lia.
+  rewrite take_idx_zrange1.
+  - f_equal. f_equal; [f_equal; lia|]. rewrite map_map. apply map_ext. intro; lia.
+  - intros i Hi. apply in_map_iff in Hi. destruct Hi as [h [<- Hh]].
+    pose proof (valid_fh_pos f h Hf Hh). pose proof (valid_fh_le_last f h Hf Hh). lia.
+Qed.
+
+Theorem bridge_tts_fh_absolute lo nn f : f <> [] -> sorted_lt f ->
+  lo < zfirst f -> zlast f < lo + nn ->
+  gen_split_by_fh (zrange lo (lo + nn) 1) false nn f tt = tts_fh_absolute lo nn f.
+Proof.
+  intros Hne Hs H1 H2. unfold gen_split_by_fh, tts_fh_absolute.
+  rewrite zmin_list_sorted by assumption.
+  destruct (lo <? zfirst f) eqn:E1; [|lia]. destruct (zlast f <? lo + nn) eqn:E2; [|lia]. cbn [andb].
+  rewrite zrange_filter_lt. f_equal. f_equal. f_equal.
+  pose proof (zlast_in f Hne) as Hin. pose proof (sorted_lt_first_min f _ Hs Hin). lia.
+Qed.
